@@ -85,11 +85,18 @@ fn sentinel(t: &mut Tape, st: &mut St, ty: Ty, wrong_type: bool) -> E {
     st.counter += 1;
     let k = st.counter;
     let want_str = (ty == Ty::Str) != wrong_type;
+    if wrong_type && t.chance(1, 2) {
+        // the default value of the wrong kind is a wrong type all the same
+        return if want_str { E::Str(String::new()) } else { lit(0) };
+    }
     if want_str {
         E::Str(format!("s{}é", k))
     } else {
-        match t.below(4) {
+        match t.below(5) {
             0 => lit(k),
+            // a lone constant of each float type that the other types cannot hold exactly
+            1 => E::Lit(format!("{}.123456789012#", k)),
+            2 => E::Lit(format!("{}.1", k % 1000)),
             _ => E::Bin(Bin::Add, Box::new(lit(k)), Box::new(E::Bin(Bin::Div, Box::new(E::Lit("1#".into())), Box::new(lit(3))))),
         }
     }
